@@ -15,6 +15,7 @@ Clauses (site = configuration name unless stated)
                   consensus on an incomplete dataset instead of refusing with an exception
   C14.complete    a complete dataset was refused
   C14.wellformed  the consensus computed (complete dataset, or incomplete and declared relevant) is not well formed
+                  (C14.wellformed.types when only the int / str typing of the names is lost, cf. C03.W.types)
   C14.crash       compute_consensus_rankings died with NameError on the absent cplex module      [D7 / D8]
   C14.exception   compute_consensus_rankings died with another undocumented exception; site "<configuration>: <type>"
 
@@ -234,6 +235,7 @@ def check_case(case):
             except Exception as e:
                 why = "result is not a list of rankings of buckets: %s: %s" % (type(e).__name__, e)
             if why is not None:
-                add({"clause": "C14.wellformed", "site": label, "detail": dict(ctx, problem=why)})
+                clause = "C14.wellformed.types" if base.only_types_differ(p, universe, one) else "C14.wellformed"
+                add({"clause": clause, "site": label, "detail": dict(ctx, problem=why)})
     key = "%s|%s|%s" % (rankings, scheme, one_req) if judged else None
     return {"fails": fails, "key": key, "nkeys": max(judged - 1, 0), "evals": evals, "sample": case}
